@@ -32,6 +32,9 @@ type InterleaveScenario struct {
 	AltMerges [][]int      `json:"alt_merges,omitempty"`
 	Inserts   []Insertion  `json:"inserts,omitempty"`
 	Corrupt   *Corruption  `json:"corrupt,omitempty"`
+	// AllMerges: enumerate EVERY order-preserving merge of the per-PID queues (tiny models of
+	// independent PIDs only; bounded-exhaustive part of the schedule space).
+	AllMerges bool `json:"all_merges,omitempty"`
 }
 
 type interleave struct{}
@@ -49,10 +52,10 @@ func (interleave) Runs(tier string) int64 {
 
 func (interleave) Meta() core.EngineMeta {
 	return core.EngineMeta{
-		Rule:       "Per-PID packet queues of a reference stream model are merged by the multiplex scheduler under the model's schedule and 2-3 further seeded order-preserving schedules (uniform, bursty, starvation, reverse priority; PAT and PMT PIDs keep their relative order), each PID is also demuxed alone (PMT PIDs together with PID 0), null / adaptation-only / transport-error packets are inserted at seeded positions, and one non-PAT PID is corrupted (payload garbage and/or packet loss). Per PID the delivered sequence must be identical in every variant. evaluations = demux executions; distinct = abstract fingerprint (stream-kind multiset, schedule modes, insertion kinds, corruption mode and kind of the corrupted PID); non-trivial = at least two PIDs.",
+		Rule:       "One run in five takes a tiny model of independent PIDs (2-3 streams, at most 9 packets) and executes EVERY order-preserving merge of its queues (bounded-exhaustive). Otherwise per-PID packet queues of a reference stream model are merged by the multiplex scheduler under the model's schedule and 2-3 further seeded order-preserving schedules (uniform, bursty, starvation, reverse priority; PAT and PMT PIDs keep their relative order), each PID is also demuxed alone (PMT PIDs together with PID 0), null / adaptation-only / transport-error packets are inserted at seeded positions, and one non-PAT PID is corrupted (payload garbage and/or packet loss). Per PID the delivered sequence must be identical in every variant. evaluations = demux executions; distinct = abstract fingerprint (stream-kind multiset, schedule modes, insertion kinds, corruption mode and kind of the corrupted PID); non-trivial = at least two PIDs.",
 		Real:       []string{"astits.Demuxer and everything below it (incl. the package-level sync.Pool)"},
 		Stub:       []string{"refts reference multiplexer", "multiplex scheduler", "PacketChannel (insertions, single-PID corruption)", "SimReader (fault-free)"},
-		FaultKinds: []string{"reschedule", "solo", "insert-null", "insert-afonly", "insert-tei", "corrupt-garbage", "corrupt-drop"},
+		FaultKinds: []string{"all-merges", "reschedule", "solo", "insert-null", "insert-afonly", "insert-tei", "corrupt-garbage", "corrupt-drop"},
 		Assumptions: []string{
 			"schedules preserve each PID's packet order and the relative order of PID 0 and PMT PIDs (a PMT PID is only recognised after a PAT listing it was delivered)",
 			"errors returned by NextData are skipped when comparing (a corrupted PID or a transport-error packet with a garbage adaptation field may produce them); nothing across PIDs is compared",
@@ -150,6 +153,20 @@ func indexOf(l []int, v int) int {
 }
 
 func (interleave) Generate(r *core.PRNG, tier string, idx int64) any {
+	if idx%5 == 0 {
+		// tiny model of independent PIDs (no PAT/PMT dependency): 2-3 streams, at most 9 packets
+		for try := 0; try < 50; try++ {
+			cfg := StreamCfg{ES: r.Range(1, 2), SI: r.Bool(), UnitsMin: 1, UnitsMax: 2, MaxPES: 300, MultiSec: r.Bool(), NoAF: r.Bool()}
+			m := GenModel(r, cfg)
+			n := 0
+			for _, c := range packetCounts(m) {
+				n += c
+			}
+			if len(m.Streams) >= 2 && len(m.Streams) <= 3 && n <= 9 {
+				return &InterleaveScenario{Model: m, AllMerges: true}
+			}
+		}
+	}
 	cfg := genStreamCfg(r)
 	cfg.Straddle = false
 	if cfg.ES+cfg.PMT < 2 {
@@ -271,6 +288,44 @@ func (interleave) Execute(scAny any, keepLog bool) *core.Outcome {
 	fp := ""
 	for _, s := range m.Streams {
 		fp += s.Kind[:2]
+	}
+	// 0. every order-preserving merge (tiny models)
+	if sc.AllMerges && !hasKind(m, "PMT") {
+		counts := make([]int, len(b.PerStream))
+		total := 0
+		for i, l := range b.PerStream {
+			counts[i] = len(l)
+			total += len(l)
+		}
+		if total <= 10 {
+			var rec func(prefix []int, left []int)
+			n := 0
+			rec = func(prefix []int, left []int) {
+				if len(prefix) == total {
+					n++
+					pk, _ := refts.MergePackets(b.PerStream, b.PerStreamMeta, prefix)
+					got := perPIDFull(pk, nil)
+					out.Evals++
+					pre := len(out.Violations)
+					compare("schedule", "enum-", got, nil, -1)
+					if len(out.Violations) > pre {
+						out.Narrow(pre, &InterleaveScenario{Model: m, AltMerges: [][]int{append([]int{}, prefix...)}})
+					}
+					return
+				}
+				for i := range left {
+					if left[i] > 0 && len(out.Violations) == 0 {
+						left[i]--
+						rec(append(prefix, i), left)
+						left[i]++
+					}
+				}
+			}
+			rec(nil, counts)
+			out.Fire("all-merges")
+			out.Probe(fmt.Sprintf("all-merges-%d-streams", len(counts)))
+			fp += fmt.Sprintf("A%d", n/20)
+		}
 	}
 	// 1. other schedules
 	for k, am := range sc.AltMerges {
